@@ -77,7 +77,7 @@ static int run_script(int nans)
 	memset(&R, 0, sizeof(R)); memset(&M, 0, sizeof(M));
 	R.ans = M.ans = ans; R.nans = M.nans = nans;
 	n_runs++;
-	vx_hasher th; vx_h_init(&th);
+	vx_hasher th; vx_h_init(&th); vx_h_u64(&th, (uint64_t)cur_index);	/* programs are partitioned among the workers: (program, trace) pairs are globally distinct */
 	for (int round = 0; round < 2; round++) {
 		/* round 1: re-invocation after exit, preceded by PT_INIT (the documented way to restart) */
 		PT_INIT(&pt); vm.code = cur_prog->code; vm.pc = 0;
